@@ -55,7 +55,19 @@ impl RayCast for HalfSpace {
             return Some(RayIntersection::new(0.0, na::zero(), FeatureId::Face(0)));
         }
 
-        let t = dot_normal_dpos / self.normal.dot(&ray.dir);
+        let dot_normal_dir = self.normal.dot(&ray.dir);
+
+        if dot_normal_dir == 0.0 {
+            // The ray is parallel to the boundary plane: it touches the
+            // boundary only if its origin already lies on it.
+            return if dot_normal_dpos == 0.0 {
+                Some(RayIntersection::new(0.0, *self.normal, FeatureId::Face(0)))
+            } else {
+                None
+            };
+        }
+
+        let t = dot_normal_dpos / dot_normal_dir;
 
         if t >= 0.0 && t <= max_time_of_impact {
             let n = if dot_normal_dpos > 0.0 {
